@@ -7,8 +7,9 @@ The announce → fetch → queue → import pipeline behind `NewBlockHashesMsg` 
 (expiry of the pending fetches, import pass over the priority queue): `step v s e = head v (handle v s e)`.
 
 What is a parameter:
-* the code variant `Variant` (`code` reads the generated fact `FeTimerCountsFetching`; the other two flags are the
-  hand mutations that serve as negative witnesses);
+* the code variant `Variant` (`code` reads the generated fact `FeTimerCountsFetching`: true since the repair of finding FGD1;
+  `beforeFGD1` is the tree before that repair, fixed by hand — the negative witnesses of the finding are about it; the other
+  two flags are the hand mutations that serve as negative witnesses);
 * the chain: `known` (hashes `getBlock` answers) and `height` (`chainHeight()`) are part of the state, changed by a
   successful import (`finish`: the new height is the environment's answer) and by `chain` (any other writer: downloader);
 * the verdicts of `validateBlock` / `insertChain` travel with the block (`vOk`, `iOk`): a function of the block.
@@ -17,7 +18,7 @@ Representation choices (all checked by the correspondence stream `fetcher`):
 * Go maps with unique keys are lists; `f.announced` (hash ↦ slice) is the flat list of announcements in arrival order, so a
   map value is the non-empty group of one hash (no statement of the Go file stores an empty slice: `announces[0]` and
   `rand.Intn(len(announces))` cannot panic); the per-peer counter maps are total functions to `Int` (Go's `int`, a missing
-  key reads 0, `delete` at 0 is the same function) — a NEGATIVE value is representable, and reachable for `code`;
+  key reads 0, `delete` at 0 is the same function) — a NEGATIVE value is representable, and reachable for `beforeFGD1`;
 * `f.queue` (prque ordered by −float32(height)) and `f.queued` are one list: an entry is either waiting in the priority
   queue (`st = none`) or popped with its import goroutine running (`st = some h`, h = chain height read by that pass).
   The import pass takes every waiting entry of height ≤ height+1 (premise: heights below 2^24, where float32 is exact);
@@ -27,7 +28,8 @@ namespace ZV.Fetcher
 open ZV.Gen
 
 structure Variant where
-  /-- the timer case raises `f.announces[origin]` when it stores `f.fetching[hash] = announce` (the repair; `code`: fact) -/
+  /-- the timer case raises `f.announces[origin]` when it stores `f.fetching[hash] = announce` (the repair of finding FGD1;
+      `code`: the generated fact) -/
   countFetching : Bool
   /-- `forgetBlock` lowers `f.queues[origin]` (code: yes) -/
   decOnForget : Bool
@@ -35,8 +37,12 @@ structure Variant where
   distTest : Bool
 deriving DecidableEq, Repr
 
-/-- the working tree -/
+/-- the working tree: whether the timer case counts the fetch it stores is what the regenerated fact says -/
 def code : Variant := ⟨FeTimerCountsFetching, true, true⟩
+/-- the tree BEFORE the repair of finding FGD1 (fixed by hand, independent of the facts): the timer case stored
+`f.fetching[hash] = announce` without raising the announcer's counter -/
+def beforeFGD1 : Variant := ⟨false, true, true⟩
+/-- the repair "count the fetch when it is stored" — what `code` is as long as the fact is true (`timer_case_in_code`) -/
 def repaired : Variant := ⟨true, true, true⟩
 def noDec : Variant := ⟨true, false, true⟩
 def noDist : Variant := ⟨true, true, false⟩
